@@ -356,6 +356,27 @@ _CMP = {ast.Lt: [ast.Gt, ast.LtE], ast.Gt: [ast.Lt, ast.GtE], ast.LtE: [ast.GtE,
 _INTS = {0: [1, -1], 1: [0, 2], 2: [10, 16, 8, 3], 10: [2, 16], 16: [2, 10], 8: [2], 3: [2], 4: [3, 5]}
 
 
+# methods a check could be widened to by mistake: siblings on the same receiver type
+_METHOD_FAMILIES = [
+    ["add", "discard", "remove", "update", "difference_update", "pop"], ["append", "extend", "insert", "remove"], ["startswith", "endswith", "find", "index"],
+    ["lstrip", "rstrip", "strip", "removeprefix", "removesuffix"], ["keys", "values", "items"], ["sort", "reverse"], ["lower", "upper", "casefold", "title"],
+    ["isdigit", "isnumeric", "isdecimal", "isalpha"], ["read", "readline", "readlines"], ["exists", "isfile", "isdir", "isabs", "islink"], ["digest", "hexdigest"],
+    ["log", "log2", "log10", "log1p"], ["copy", "deepcopy"], ["search", "match", "fullmatch", "findall"], ["getcwd", "getcwdb"], ["remove", "unlink", "rmdir"],
+    ["mkdir", "makedirs"], ["utcnow", "now", "today"], ["fromisoformat", "fromtimestamp"], ["from_float", "from_decimal"], ["count", "index"], ["join", "split"],
+]
+_SIBLINGS: dict[str, list[str]] = {}
+for _fam in _METHOD_FAMILIES:
+    for _m in _fam:
+        _SIBLINGS.setdefault(_m, [])
+        _SIBLINGS[_m] += [x for x in _fam if x != _m and x not in _SIBLINGS[_m]]
+_FUNC_FAMILIES = [["sorted", "reversed", "list", "tuple", "set", "frozenset"], ["min", "max", "sum", "any", "all"], ["bin", "oct", "hex"], ["len", "bool"], ["map", "filter"],
+                  ["isinstance", "issubclass"], ["print", "repr", "str"], ["int", "float"]]
+for _fam in _FUNC_FAMILIES:
+    for _m in _fam:
+        _SIBLINGS.setdefault("()" + _m, [])
+        _SIBLINGS["()" + _m] += [x for x in _fam if x != _m]
+
+
 def _alts(n: ast.AST) -> list[ast.AST]:
     """Single-site edits of an idiom: the shapes next to the documented one, which a check's guard
     either rejects (nothing to verify) or accepts (then its advice must hold for them too)."""
@@ -394,8 +415,16 @@ def _alts(n: ast.AST) -> list[ast.AST]:
         m = c(n)
         m.args.reverse()
         out.append(m)
-    elif isinstance(n, ast.keyword) and n.arg is not None and not isinstance(n.value, ast.Constant):
-        pass
+    if isinstance(n, ast.Attribute) and isinstance(n.ctx, ast.Load) and n.attr in _SIBLINGS:
+        for alt in _SIBLINGS[n.attr]:
+            m = c(n)
+            m.attr = alt
+            out.append(m)
+    if isinstance(n, ast.Call) and isinstance(n.func, ast.Name) and "()" + n.func.id in _SIBLINGS:
+        for alt in _SIBLINGS["()" + n.func.id]:
+            m = c(n)
+            m.func = ast.Name(id=alt, ctx=ast.Load())
+            out.append(m)
     return out
 
 
@@ -831,6 +860,8 @@ def run(ctx: Ctx) -> None:
             if len(combos) > ctx.budget(700, 6000):
                 combos = rng.sample(combos, ctx.budget(700, 6000))
             reported: set[str] = set()
+            pending_raises: list = []
+            n_original_ok = 0
             envs: list = []
             derived[i] = (r, rhs, envs)
             mm = MODEL_RULES.get((r.code, r.lhs))
@@ -850,8 +881,25 @@ def run(ctx: Ctx) -> None:
                 ctx.count(f"class-{r.cls}")
                 if (mm is not None or hm is not None) and len(envs) < 400:
                     envs.append((args, raw_a, raw_c))
+                n_original_ok += a["result"][0] == "ok"
                 if a["result"][0] == "exc":
-                    continue                 # the property's hypothesis: the original does not raise
+                    # whether an exception is raised is an observable (which one is not): both raising is agreement
+                    if c["result"][0] == "exc":
+                        continue
+                    cause = f"original-raises:{a['result'][1]}"
+                    if cause not in reported:
+                        reported.add(cause)
+                        inst = f"{r.lhs}[{','.join(r.params.values())}]"
+                        if r.note.startswith("`"):
+                            if (r.code, r.lhs, cause) in swapped_reported:
+                                continue
+                            swapped_reported.add((r.code, r.lhs, cause))
+                            inst = f"{r.lhs}[other-operand-types]"
+                        pending_raises.append((f"semantics:FURB{r.code}:{inst}:{cause}", f"FURB{r.code}: `{r.lhs}` -> `{rhs}` differ on {', '.join(f'{k}={v!r}' for k, v in args.items())}: "
+                                               f"the original raises {a['result'][1]}, the replacement returns {str(c['result'])[:100]}",
+                                               {"rule": r.code, "original": r.lhs, "replacement": rhs, "message": msg, "replacement_from": how, "environment": {k: repr(v) for k, v in args.items()},
+                                                "cause_class": cause, "original_outcome": {k: repr(v) for k, v in a.items()}, "replacement_outcome": {k: repr(v) for k, v in c.items()}}))
+                    continue
                 if a["result"][0] == "ok" and c["result"][0] == "ok" and r.mode == "stmt":
                     la, lc = dict(a["result"][1][1]), dict(c["result"][1][1])
                     for k in set(la) ^ set(lc):
@@ -877,6 +925,13 @@ def run(ctx: Ctx) -> None:
                                f"{diff[0]}: {str(a[diff[0]])[:120]} vs {str(c[diff[0]])[:120]}",
                                {"rule": r.code, "original": r.lhs, "replacement": rhs, "message": msg, "replacement_from": how, "environment": {k: repr(v) for k, v in args.items()},
                                 "cause_class": cause, "original_outcome": {k: repr(v) for k, v in a.items()}, "replacement_outcome": {k: repr(v) for k, v in c.items()}})
+            # an instance whose original raises on EVERY environment is not an instance of the idiom (it is ill-typed
+            # for these operands): nothing to preserve.  Otherwise raising where the replacement does not is a difference.
+            if pending_raises and n_original_ok:
+                for k_, w_, rep_ in pending_raises:
+                    ctx.report(k_, w_, rep_)
+            elif pending_raises:
+                ctx.count("instances-that-always-raise")
         ctx.extra["rule_instances"] = len(RULES)
         ctx.extra["neighbouring_shapes_generated"] = len(ALL) - base_n
         ctx.extra["flagged_variants_with_underivable_replacement"] = variant_underivable
